@@ -241,7 +241,41 @@ def jobs(tier):
         out.append({"name": "%s/%s" % (name, "req" if spec["o"].get("required") else ("v" if spec["o"].get("validator") else "opt")), "spec": spec, "vals": vals})
     for itemkind in ("schema", "ctype"):
         out.append({"name": "List[%s-with-encoded-fields]" % itemkind, "cfgitems": itemkind})
+    out.append({"name": "independence", "independence": True})
     return out
+
+
+INDEP = [{"k": "LogLevel", "o": {}}, {"k": "AppMode", "o": {}}, {"k": "Str", "o": {"choices": ["a", "abc"]}},
+         {"k": "LogLevel", "o": {"levels": ["notice", "warn"]}}, {"k": "AppMode", "o": {"modes": ["dev", "test"]}}]
+INDEP_VALUES = ["zzextra", "debug", "INFO", "production", "development", "a", "abc", "notice", "dev", "", "x"]
+
+
+def check_independence(ctx, only=None):
+    """what a field accepts is decided by its own declaration: a field object built before, and one built after, another
+    field object of the same class had its (public) list attributes extended in place answer like the reference"""
+    for i, spec in enumerate(INDEP):
+        if only is not None and only != i:
+            continue
+        cfg0, early = _mkworld(spec)
+        import copy
+        _cfg, custom = _mkworld(copy.deepcopy(spec))      # its own option lists: the field may keep the list it was given
+        for attr in ("choices", "levels", "modes"):
+            lst = getattr(custom, attr, None)
+            if isinstance(lst, list):
+                lst.append("zzextra")
+        case = {"independence": i, "job": "independence"}
+        for v in INDEP_VALUES:
+            ref = R.ref_validate(spec, v)
+            lib = _try(lambda: early.validate(cfg0, v))
+            ctx.transitions += 1
+            ctx.case(("independence", i, v, "early"), "independence:%s" % lib[0], True)
+            if ref[0] != "undef" and (lib[0] == "ok") != (ref[0] == "ok"):
+                ctx.violation("C05|%s|independence|built-before" % _optkey(spec),
+                              "%s built before another field object was customised in place now %s %r (declared constraint: %s)"
+                              % (_optkey(spec), "accepts" if lib[0] == "ok" else "rejects", v, ref[1] if ref[0] == "rej" else "valid"), case)
+            # a field object built afterwards
+            check_pair(ctx, spec, v, case)
+    ctx.traces += 1
 
 
 # ---------------------------------------------------------------------------------------------
@@ -267,6 +301,12 @@ def run_job(job, ctx):
     single = job.get("single")
     if single and "cfgitems" in single:
         check_config_items(ctx, single)
+        return
+    if single and "independence" in single:
+        check_independence(ctx, single["independence"])
+        return
+    if job.get("independence"):
+        check_independence(ctx)
         return
     if single:
         check_pair(ctx, _subst(single["spec"], ctx.tmp), _subst(single["value"], ctx.tmp), single)
